@@ -288,7 +288,8 @@ def main(argv=None):
     und_targets = {rep["target"].partition(":")[2] for rep in reports if rep["status"] != "ok"}
     missing = [n for n in missing if n.split("::")[0] not in und_targets]
 
-    n_obl = len(agg)
+    # deductive obligations only: an obligation that depends on a bounded input / unrolled loop is reported separately and never counted here
+    n_obl = sum(1 for ag in agg.values() if not ag["bounded"])
     n_dis = sum(1 for ag in agg.values() if ag["verdict"] == "discharged" and not ag["bounded"])
     n_bounded_obl = sum(1 for ag in agg.values() if ag["verdict"] == "discharged" and ag["bounded"])
 
@@ -389,6 +390,8 @@ def write_evidence(prop, tier, seed, mod, reg, reports, agg, bounded, live, find
         "obligations": n_obl,
         "discharged": n_dis,
         "obligations_bounded_only": n_bounded_obl,
+        "obligations_note": "`obligations` / `discharged` count the unbounded (deductive) obligations only; `obligations_bounded_only` are obligations whose inputs were explored "
+                            "up to a stated finite scope (labelled bounded, not counted as proved)",
         "obligation_instances_over_paths": sum(len(r["obligations"]) for r in reports),
         "checker_cmd": f"./check {prop} --tier {tier}",
         "trusted_base": list(getattr(mod, "TRUSTED_BASE", [])) + trusted,
